@@ -12,6 +12,11 @@ HELPERS = ["(define (helper-second l) (car (cdr l)))", "(define (helper-div a b)
            "(define (helper-call f x) (f x))", "(define (helper-loop n) (if (= n 0) (car n) (helper-loop (- n 1))))"]
 
 
+MACROS = ["(define-syntax check-all (syntax-rules () ((check-all e ...) (begin (if e #t (report-the-failure 'e)) ...))))",
+          "(define-syntax call-all (syntax-rules () ((call-all e ...) (list (if (< e 2) e (98765 e)) ...))))",
+          "(define-syntax first-of-all (syntax-rules () ((first-of-all e ...) (list (car e) ...))))"]
+
+
 def fault_form(rng):
     """a top-level form that fails, with the fault textually inside it; -> (AST, kind, site token or None)"""
     kind = rng.choice(["Unbound", "Unbound", "UnboundAssign", "NonProcedure", "NonProcedure", "WrongType", "DivByZero", "IndexRange", "Arity", "ImmutableVector",
@@ -29,7 +34,13 @@ def fault_form(rng):
                               (S.app("helper-ref", S.app("vector", S.lit(1)), S.lit(4)), "IndexRange"),
                               (S.app("helper-call", S.var("cons"), S.lit(1)), "Arity"),
                               (S.app("helper-call", S.lam(["p", "q"], [S.var("p")]), S.lit(1)), "Arity"),
-                              (S.app("helper-loop", S.lit(3)), "WrongType")])
+                              (S.app("helper-loop", S.lit(3)), "WrongType"),
+                              # faults raised by what a macro's TEMPLATE contributes, in a later repetition of an ellipsis
+                              # sub-template (the macros are defined by earlier forms, MACROS)
+                              ({"t": "rawtext", "text": "(check-all (< 1 5) (< 20 5) (< 3 5))"}, "Unbound"),
+                              ({"t": "rawtext", "text": "(check-all (< 1 5) (< 2 5) (< 30 5))"}, "Unbound"),
+                              ({"t": "rawtext", "text": "(call-all 1 2 3)"}, "NonProcedure"),
+                              ({"t": "rawtext", "text": "(first-of-all (list 1) (list 2) 3)"}, "WrongType")])
         site = None
     elif kind == "Unbound":
         f, site = S.var(SITE_VAR), SITE_VAR
@@ -183,6 +194,7 @@ def run(ctx):
                                                              '(define ml-text \'("x ; y\n" "(((\n"))']))
         f, kind, site = fault_form(rng)
         pre = HELPERS + pre if "helper-" in S.render(f) else pre
+        pre = MACROS + pre if "-all " in S.render(f) else pre
         ftext = S.render(f)
         if rng.random() < 0.2 and not ftext.startswith("(define"):
             ftext = '(begin "two\nlines (" %s)' % ftext
